@@ -80,6 +80,10 @@ def probe_snapshot():
 
 
 def generate(prop, seed, idx, opts):
+    if opts.get("profile") == "C18expr":
+        from . import engine_exprfresh
+
+        return engine_exprfresh.generate(prop, seed, idx, opts)
     prof = PROFILES[opts.get("profile", prop)]
     sub = derive(seed, prop, idx)
     g = HistoryGen(sub, prof)
@@ -129,6 +133,10 @@ def alphabet_filter(claripy, m: Machine, specs):
 
 
 def execute(rec):
+    if rec.get("kind") == "exprfresh":
+        from . import engine_exprfresh
+
+        return engine_exprfresh.execute(rec)
     if rec.get("fault_enum"):
         return execute_fault_enum(rec)
     return execute_one(rec)
@@ -253,6 +261,11 @@ def _subexprs(sp):
 
 def shrink_ops(rec):
     """yield (description, candidate record) with one op argument simplified"""
+    if rec.get("kind") == "exprfresh":
+        from . import engine_exprfresh
+
+        yield from engine_exprfresh.shrink_ops(rec)
+        return
     ops = rec["ops"]
     variables = {n: w for n, w in rec["config"]["vars"]}
 
